@@ -3,7 +3,7 @@
 mkdir -p /root/trials
 for id in "$@"; do
   if [ -f /tmp/seed-out/$id/patch.diff ]; then
-    /venv/bin/python /verif/harness/seeding/trial.py /tmp/seed-out/$id --tests > /root/trials/$id.log 2>&1
+    /venv/bin/python ${TRIAL_VERIF:-/verif}/harness/seeding/trial.py /tmp/seed-out/$id --tests > /root/trials/$id.log 2>&1
     /venv/bin/python - "$id" <<'PY'
 import json,sys
 sid=sys.argv[1]; t=open('/root/trials/%s.log'%sid).read()
